@@ -158,13 +158,12 @@ impl<B: StarkField, H: ElementHasher<BaseField = B>> RandomCoin for DefaultRando
     /// the PRNG with the specified `nonce` by setting the new seed to hash(`seed` || `nonce`).
     ///
     /// # Errors
-    /// Returns an error if the specified number of integers could not be generated after 1000
-    /// calls to the PRNG.
+    /// Returns an error if:
+    /// - `num_values` is greater than or equal to `domain_size`.
+    /// - The specified number of integers could not be generated after 1000 calls to the PRNG.
     ///
     /// # Panics
-    /// Panics if:
-    /// - `domain_size` is not a power of two.
-    /// - `num_values` is greater than or equal to `domain_size`.
+    /// Panics if `domain_size` is not a power of two.
     ///
     /// # Examples
     /// ```
@@ -194,7 +193,12 @@ impl<B: StarkField, H: ElementHasher<BaseField = B>> RandomCoin for DefaultRando
         nonce: u64,
     ) -> Result<Vec<usize>, RandomCoinError> {
         assert!(domain_size.is_power_of_two(), "domain size must be a power of two");
-        assert!(num_values < domain_size, "number of values must be smaller than domain size");
+
+        // the number of values is frequently taken from untrusted input (the number of queries
+        // claimed by a proof), so an unsatisfiable request is reported as an error
+        if num_values >= domain_size {
+            return Err(RandomCoinError::FailedToDrawIntegers(num_values, 0, 0));
+        }
 
         // reseed with nonce
         self.seed = H::merge_with_int(self.seed, nonce);
